@@ -156,14 +156,24 @@ Section WithBlocks.
     end.
 
   (** * consistency check (WireManagerBase.check_consistency): the four wires of an axis carry the
-      same count and every wire carries the count of each coincident wire *)
+      same count and every wire carries the count of each coincident wire ... *)
   Definition total (l : list nat) : nat := fold_right Nat.add 0 l.
   Definition wcount (s : st) (w : wire) : nat := total (g s w).
 
   Definition axis_consistent (s : st) (x : axis) : bool :=
     forallb (fun w => wcount s w =? wcount s (fst x, snd x, 0)) (wires_of_axis x)
     && forallb (fun w => forallb (fun c => wcount s c =? wcount s w) (coin_set w)) (wires_of_axis x).
-  Definition consistent (s : st) : bool := forallb (axis_consistent s) (all_axes nblocks).
+  Definition consistent_counts (s : st) : bool := forallb (axis_consistent s) (all_axes nblocks).
+
+  (** ... and (since the repair of the C04 defect) every wire carries the same section list as each
+      coincident wire, reversed when the two run in opposite directions *)
+  Definition nl_eqb (l m : list nat) : bool :=
+    (length l =? length m) && forallb (fun p => fst p =? snd p) (combine l m).
+  Definition axis_agree (s : st) (x : axis) : bool :=
+    forallb (fun w => forallb (fun c => nl_eqb (g s w) (if aligned c w then g s c else rev (g s c))) (coin_set w))
+            (wires_of_axis x).
+  Definition gradings_agree (s : st) : bool := forallb (axis_agree s) (all_axes nblocks).
+  Definition consistent (s : st) : bool := consistent_counts s && gradings_agree s.
 
   (** the count written for a block direction (Axis.count) *)
   Definition written (s : st) (x : axis) : nat :=
